@@ -11,6 +11,9 @@ import (
 	"time"
 )
 
+// SlowQuery, when non-zero, logs queries slower than this.
+var SlowQuery time.Duration
+
 type Result int
 
 const (
@@ -232,7 +235,20 @@ func (s *Solver) Check(pc []*Term, extra *Term, wantModel []*Term) (Result, Mode
 		return Unknown, nil, fmt.Errorf("solver dead")
 	}
 	t0 := time.Now()
-	defer func() { s.Stats.Time += time.Since(t0) }()
+	defer func() {
+		d := time.Since(t0)
+		s.Stats.Time += d
+		if SlowQuery > 0 && d > SlowQuery {
+			ex := "<nil>"
+			if extra != nil {
+				ex = extra.String()
+				if len(ex) > 300 {
+					ex = ex[:300] + "..."
+				}
+			}
+			fmt.Fprintf(os.Stderr, "SLOW QUERY %v pc=%d extra=%s\n", d, len(pc), ex)
+		}
+	}()
 	s.Stats.Queries++
 	s.sync(pc)
 	if extra != nil {
